@@ -95,23 +95,123 @@ fn build<E: BigElem, N: ArrayLength>(op: &str, shape: &str) {
     summarize(op, shape, b.as_slice(), std::mem::size_of_val(&*b));
 }
 
+// ---- sequence operations and serde at lengths far above the value pool's (2048, 2049, 4097): contents are
+// summarised as [len, first, last, sum mod 1000003]; the elements are their own indices 0..n-1 ------------------------
+fn summ(s: &[u64]) -> String {
+    let sum = s.iter().fold(0u64, |a, x| (a + *x) % 1_000_003);
+    format!("[{},{},{},{}]", s.len(), s.first().map(|x| *x as i64).unwrap_or(-1), s.last().map(|x| *x as i64).unwrap_or(-1), sum)
+}
+fn bigseq<N>(op: &str, arg: usize)
+where
+    N: ArrayLength + std::ops::Add<generic_array::typenum::B1> + std::ops::Sub<generic_array::typenum::B1> + std::ops::Sub<generic_array::typenum::U1> + std::ops::Sub<generic_array::typenum::U1024>,
+    generic_array::typenum::Add1<N>: ArrayLength + std::ops::Sub<generic_array::typenum::B1, Output = N>,
+    generic_array::typenum::Sub1<N>: ArrayLength + std::ops::Add<generic_array::typenum::B1, Output = N>,
+    generic_array::typenum::Diff<N, generic_array::typenum::U1>: ArrayLength,
+    generic_array::typenum::Diff<N, generic_array::typenum::U1024>: ArrayLength,
+    generic_array::typenum::U1: std::ops::Add<generic_array::typenum::Diff<N, generic_array::typenum::U1>, Output = N>,
+    generic_array::typenum::U1024: std::ops::Add<generic_array::typenum::Diff<N, generic_array::typenum::U1024>, Output = N>,
+{
+    use generic_array::sequence::{Concat, Lengthen, Remove, Shorten, Split};
+    use generic_array::typenum::{U1, U1024};
+    let n = N::USIZE;
+    let a: Box<GenericArray<u64, N>> = Box::<GenericArray<u64, N>>::generate(|i| i as u64);
+    let a: GenericArray<u64, N> = *a;
+    let (removed, outs): (i64, Vec<String>) = match op {
+        "remove" => { let (x, r) = a.remove(arg); (x as i64, vec![summ(&r), format!("[{}]", r.get(arg).map(|v| *v as i64).unwrap_or(-1))]) }
+        "swap_remove" => { let (x, r) = a.swap_remove(arg); (x as i64, vec![summ(&r), format!("[{}]", r.get(arg).map(|v| *v as i64).unwrap_or(-1))]) }
+        "pop_back" => { let (r, x) = a.pop_back(); (x as i64, vec![summ(&r)]) }
+        "pop_front" => { let (x, r) = a.pop_front(); (x as i64, vec![summ(&r)]) }
+        "append" => { let r = a.append(n as u64); (-1, vec![summ(&r)]) }
+        "prepend" => { let r = a.prepend(n as u64); (-1, vec![summ(&r)]) }
+        "split1" => { let (x, y) = Split::<u64, U1>::split(a); let o = vec![summ(&x), summ(&y)]; let back: GenericArray<u64, N> = Concat::concat(x, y); (-1, [o, vec![summ(&back)]].concat()) }
+        "split1024" => { let (x, y) = Split::<u64, U1024>::split(a); let o = vec![summ(&x), summ(&y)]; let back: GenericArray<u64, N> = Concat::concat(x, y); (-1, [o, vec![summ(&back)]].concat()) }
+        _ => panic!("HARNESS: bigseq op {}", op),
+    };
+    ev!("\"ev\":\"bigseq\",\"op\":\"{}\",\"n\":{},\"arg\":{},\"removed\":{},\"outs\":[{}]", op, n, arg as i64, removed, outs.join(","));
+}
+fn bigserde<N: ArrayLength>() {
+    let n = N::USIZE;
+    let a: Box<GenericArray<u32, N>> = Box::<GenericArray<u32, N>>::generate(|i| i as u32);
+    let bin = bincode::serialize(&*a).unwrap();
+    let back: Result<Box<GenericArray<u32, N>>, _> = bincode::deserialize(&bin);
+    let bin_ok = back.as_ref().map(|b| b.as_slice() == a.as_slice()).unwrap_or(false);
+    let json = serde_json::to_string(&*a).unwrap();
+    let jback: Result<Box<GenericArray<u32, N>>, _> = serde_json::from_str(&json);
+    let json_ok = jback.as_ref().map(|b| b.as_slice() == a.as_slice()).unwrap_or(false);
+    // one element too many / too few in a self-describing format
+    let longer = format!("{},0]", &json[..json.len() - 1]);
+    let too_long_rejected = serde_json::from_str::<Box<GenericArray<u32, N>>>(&longer).is_err();
+    let shorter = format!("{}]", &json[..json.rfind(',').unwrap()]);
+    let too_short_rejected = serde_json::from_str::<Box<GenericArray<u32, N>>>(&shorter).is_err();
+    ev!("\"ev\":\"bigserde\",\"n\":{},\"bin_len\":{},\"bin_ok\":{},\"json_ok\":{},\"too_long_rejected\":{},\"too_short_rejected\":{}", n, bin.len(), bin_ok, json_ok, too_long_rejected, too_short_rejected);
+}
+/// views of slices of zero-sized elements whose length no sized slice can have
+fn zsthuge<N: ArrayLength>(lcode: &str) {
+    let l: usize = match lcode { "isize_max_plus_1" => (isize::MAX as usize) + 1, "2^63+5" => (1usize << 63) + 5, _ => usize::MAX };
+    let s: &[()] = unsafe { std::slice::from_raw_parts(std::ptr::NonNull::<()>::dangling().as_ptr(), l) };
+    let (chunks, rem) = GenericArray::<(), N>::chunks_from_slice(s);
+    let flat = GenericArray::<(), N>::slice_from_chunks(chunks);
+    let n = N::USIZE;
+    ev!("\"ev\":\"zsthuge\",\"n\":{},\"l\":\"{}\",\"count_ok\":{},\"rem_ok\":{},\"flat_ok\":{}", n, lcode, chunks.len() == l / n, rem.len() == l % n, flat.len() == (l / n) * n);
+}
+
 pub fn run_case(scn: &J) {
-    ev!("\"ev\":\"case_start\",\"case\":{},\"prop\":{},\"ety\":\"plain\",\"rec\":false", crate::events::jstr(scn["case"].as_str().unwrap_or("")), crate::events::jstr(scn["prop"].as_str().unwrap_or("")));
+    // with d.rec the allocator calls of the construction are part of the trace (layouts of multi-MiB blocks)
+    let rec = scn["d"]["rec"].as_bool().unwrap_or(false);
+    ev!("\"ev\":\"case_start\",\"case\":{},\"prop\":{},\"ety\":\"plain\",\"rec\":{}", crate::events::jstr(scn["case"].as_str().unwrap_or("")), crate::events::jstr(scn["prop"].as_str().unwrap_or("")), rec);
+    if rec {
+        crate::alloc::reset();
+    }
     crate::events::flush();
     let op = scn["d"]["op"].as_str().unwrap().to_string();
     let shape = scn["d"]["shape"].as_str().unwrap().to_string();
+    let arg = scn["d"]["arg"].as_u64().unwrap_or(0) as usize;
+    if op == "bigseq" || op == "bigserde" || op == "zsthuge" {
+        use generic_array::typenum::{Sum, U1, U2, U2048, U3, U4096, U7, U8192};
+        let sub = scn["d"]["sub"].as_str().unwrap_or("").to_string();
+        let h = std::thread::Builder::new()
+            .stack_size(64 << 20)
+            .spawn(move || match (op.as_str(), shape.as_str()) {
+                ("bigseq", "2048") => bigseq::<U2048>(&sub, arg),
+                ("bigseq", "2049") => bigseq::<Sum<U2048, U1>>(&sub, arg),
+                ("bigseq", "4097") => bigseq::<Sum<U4096, U1>>(&sub, arg),
+                ("bigserde", "4097") => bigserde::<Sum<U4096, U1>>(),
+                ("bigserde", "8192") => bigserde::<U8192>(),
+                ("zsthuge", "1") => zsthuge::<U1>(&sub),
+                ("zsthuge", "2") => zsthuge::<U2>(&sub),
+                ("zsthuge", "3") => zsthuge::<U3>(&sub),
+                ("zsthuge", "7") => zsthuge::<U7>(&sub),
+                _ => panic!("HARNESS: big family {} {}", op, shape),
+            })
+            .expect("HARNESS: spawn");
+        let ok = h.join().is_ok();
+        ev!("\"ev\":\"big_done\",\"ok\":{}", ok);
+        ev!("\"ev\":\"case_end\"");
+        crate::events::flush();
+        return;
+    }
     let h = std::thread::Builder::new()
         .stack_size(256 * 1024)
-        .spawn(move || match shape.as_str() {
-            "1m_u64" => build::<u64, U1048576>(&op, &shape),
-            "256x16k" => build::<Big16k, U256>(&op, &shape),
-            "64x16k" => build::<Big16k, U64>(&op, &shape),
-            "32x16k" if op == "box_arr_list" => list32(&op, &shape),
-            "32x16k" => build::<Big16k, U32>(&op, &shape),
-            _ => panic!("HARNESS: big shape {}", shape),
+        .spawn(move || {
+            let _scope = if rec {
+                crate::alloc::mark_worker_thread();
+                crate::events::RECORD_ALLOC.store(true, std::sync::atomic::Ordering::SeqCst);
+                Some(crate::alloc::LibScope::enter())
+            } else {
+                None
+            };
+            match shape.as_str() {
+                "1m_u64" => build::<u64, U1048576>(&op, &shape),
+                "256x16k" => build::<Big16k, U256>(&op, &shape),
+                "64x16k" => build::<Big16k, U64>(&op, &shape),
+                "32x16k" if op == "box_arr_list" => list32(&op, &shape),
+                "32x16k" => build::<Big16k, U32>(&op, &shape),
+                _ => panic!("HARNESS: big shape {}", shape),
+            }
         })
         .expect("HARNESS: spawn");
     let ok = h.join().is_ok();
+    crate::events::RECORD_ALLOC.store(false, std::sync::atomic::Ordering::SeqCst);
     ev!("\"ev\":\"big_done\",\"ok\":{}", ok);
     ev!("\"ev\":\"case_end\"");
     crate::events::flush();
